@@ -8,6 +8,8 @@ THEOREMS = ["Slock.C09." + t for t in (
     "reachable_inv C09_no_gap_partial C09_no_gap_fails C09_out_of_buf_partial C09_out_of_buf_fails C09_search C09_buffer_is_suffix "
     # handshake model: invariant for all guarded event sequences of any length (induction), prefix + convergence theorems
     "C09_sync_inv C09_resync C09_converge "
+    # SendProcess's 4 KB batch buffer keeps the record order (and the seeded exemption of large records breaks it)
+    "C09_batch_order C09_batch_bound C09_batch_order_needs_flush "
     # each guard is needed (decide on the executable model; each sequence fails SGuarded exactly at the guarded event)
     "C09_resync_fails_early_cut C09_resync_fails_empty_buffer C09_resync_fails_stale_addpoll "
     # per-step statements kept from the first round
@@ -76,6 +78,10 @@ FINISH = {"level": "proof", "assumptions": [
     "counterexample showing it is needed; that RemovePoll only undoes an AddPoll is proved (pollCount = registered channels)",
     "assumed away in the handshake model: LoadAofFile's per-record expiry filter (the file phase transfers every record with id < H, i.e. no "
     "record's own deadline passes during the run) — its effect is the process-level finding `expired-record`",
+    "SendProcess's batching (4096-byte buffer, direct write of larger records, flush rules) is modelled separately (Batch / sendRec) and proved "
+    "order-preserving; its tie to the code is the process-level run: value bursts small,small,LARGE (4026‥20000 bytes, the 4032/4033 and "
+    "exact-fit boundaries) on one key during resume-from-buffer, in the throttled live stream and after a cut, checked by the value comparison "
+    "and by C09:follower-log-reordered (record numbers in the follower's own append file must increase)",
     "still model-only: the per-event semantics between handshake and quiescence (file phase record by record, `deliver`, the cursor's position "
     "inside the real leader) are not compared step by step — only their outcome is; the empty-buffer counterexample "
     "(C09_resync_fails_empty_buffer) needs > ring-buffer-max of traffic during a file phase and is not provoked at process level; "
@@ -142,9 +148,9 @@ def process_level(ctx):
     if not c09_eproc.build_server(ctx):
         return
     if ctx.tier == "quick":
-        jobs = [(ctx.seed, "basic"), (ctx.seed, "livegap")]
+        jobs = [(ctx.seed, "basic"), (ctx.seed, "livegap"), (ctx.seed, "bigvalue")]
     else:
-        jobs = [(ctx.seed + i, k) for i in range(2) for k in ("cuts", "basic", "livegap", "emptydir", "filecut", "filecut0", "filekill", "expiredrecord")]
+        jobs = [(ctx.seed + i, k) for i in range(2) for k in ("cuts", "bigvalue", "basic", "livegap", "emptydir", "filecut", "filecut0", "filekill", "expiredrecord")]
     runs = c09_eproc.run_scenarios(ctx, jobs)
     ep = ctx.cov.setdefault("eproc", {"scenarios": [], "state_comparisons": 0, "handshakes_seen": {}, "handshakes_vs_model": 0,
                                       "leader_ops": 0, "op_kinds": {}})
@@ -156,6 +162,8 @@ def process_level(ctx):
         ep["scenarios"].append({"kind": r.label, "seed": r.seed, "wall_s": round(r.wall, 1), "comparisons": r.compares, "ops": r.wl.ops if r.wl else 0,
                                 "steps": r.trace, "monitors": [m[0] for m in r.mon]})
         ep["state_comparisons"] += r.compares
+        if getattr(r, "file_order_obs", 0):
+            ep["follower_file_order_observations"] = ep.get("follower_file_order_observations", 0) + r.file_order_obs
         if getattr(r, "deadline2", 0):
             ep["deadline_off_by_2_observations"] = ep.get("deadline_off_by_2_observations", 0) + r.deadline2
         ep["leader_ops"] += r.wl.ops if r.wl else 0
